@@ -16,7 +16,7 @@ RULE = ('(a) process programs with waits x sequences of K<=3 (thorough 4) of {pa
 RULE += ('; also: failing wake-ups (the failure is the wake-up), kills requested and withdrawn around the wake-up, the stepping task cancelled while blocked in the wait and restarted before / after the wake-up')
 ASSUMPTIONS = ['liveness restated as bounded progress at quiescence (deterministic single-threaded loop, no timers)',
                'first accepted resume(v) of a wait defines the expected continuation argument']
-REQUIRED = ['stepping_task_cancelled_in_wait', 'kill_withdrawn_runs', 'wakeups', 'pause_or_play', 'quiescence_checks', 'wakeup_phase/pausing', 'wakeup_phase/paused', 'wc_runs', 'plain_runs', 'continuations_checked']
+REQUIRED = ['stepping_task_cancelled_while_paused', 'stepping_task_cancelled_in_wait', 'kill_withdrawn_runs', 'wakeups', 'pause_or_play', 'quiescence_checks', 'wakeup_phase/pausing', 'wakeup_phase/paused', 'wc_runs', 'plain_runs', 'continuations_checked']
 BOUNDS = {'quick': 'plain: 5 wait programs, K<=3 (K=3 sampled); workchains: n<=2 awaitables exhaustive grid, n=3 sampled',
           'thorough': 'plain K<=4 sampled wider, 20 random wait programs; workchains n<=3, K<=3 pause/play'}
 ALPHA_PLAIN = [['pause', 'p'], ['play'], ['resume', ['v']], ['resume', None]]
@@ -125,6 +125,13 @@ def run_case(case):
             blocked_paused = ab is not None and ab['phase'].endswith('/paused') and 'stepping' not in ab['phase']
             if blocked_paused:
                 obs['stepping_task_cancelled_while_paused'] = 1
+            if ab is not None and 'unstarted' in ab['phase']:
+                blocked_paused = False  # (the cancelled task had not started: nothing of the process was involved)
+            if (blocked_in_wait or blocked_paused) and any(a['kind'] == 'restart_task' and a['via'] == 'drain' for a in rec['acts']):
+                # the stepping task started by the plan ended although the process had not terminated and nobody cancelled it: the
+                # harness had to start another one to bring the run to its end
+                viol.append(judges.V('wakeup-lost', 'stepping-task-died:%s' % ab['phase'], 'the stepping task started after the first one was cancelled (%s) '
+                                     'died without the process having terminated; the process only went on because the harness started a third one' % ab['phase']))
             if not (blocked_in_wait or blocked_paused):
                 # the task was not blocked in the wait when it was cancelled (a step cancelled half way is run again: not a matter
                 # of wake-ups)
